@@ -842,7 +842,25 @@ fn reg_trunc(v: &mut Vec<Case>) {
             let want = p256_prepare_ref(inp);
             chk(got == want, || format!("prepare_truncate({}) = {:?}, documented result {:?}", hex(inp), got.map(|x| hex(&x)), want.map(|x| hex(&x))))
         }) });
+    // Fails on the unchanged tree (suspected library defect, see the final report): for inputs shorter
+    // than 64 bytes prepare_truncate() copies sig[..32] instead of the left-padded r.
+    v.push(Case { id: "p256_prepare_truncate_short".into(),
+        describe: "prepare_truncate on an even-length signature shorter than 64 bytes (r, s < 2^(4*len), as accepted by verify_hash) gives the same result as on the same integers written on 2*32 bytes. Input: r(32 BE) | s(32 BE) | half length selector (1: 16 + b % 17)",
+        ops: vec![Op::Custom { len: Some(32), specials: sp_p256_rs, random: rnd_p256_rs }, Op::Custom { len: Some(32), specials: sp_p256_rs, random: rnd_p256_rs }, Op::Custom { len: Some(1), specials: sp_halflen, random: rnd_halflen }],
+        run: Box::new(|inp: &[u8]| {
+            if inp.len() != 65 { return Ok(()); }
+            let nl = 16 + (inp[64] % 17) as usize;
+            let mut short = inp[32 - nl..32].to_vec(); short.extend_from_slice(&inp[64 - nl..64]);
+            let mut full = vec![0u8; 64];
+            full[32 - nl..32].copy_from_slice(&inp[32 - nl..32]);
+            full[64 - nl..64].copy_from_slice(&inp[64 - nl..64]);
+            let want = p256_prepare_ref(&full);
+            let got = crrl::p256::PrivateKey::prepare_truncate(&short).map(|x| x.to_vec());
+            chk(got == want, || format!("prepare_truncate({}) ({} bytes) = {:?}, but the same (r, s) on 64 bytes gives {:?}", hex(&short), short.len(), got.map(|x| hex(&x)), want.map(|x| hex(&x))))
+        }) });
 }
+fn sp_halflen() -> Vec<Vec<u8>> { (0..17u8).map(|x| vec![x]).collect() }
+fn rnd_halflen(r: &mut Rng) -> Vec<u8> { vec![r.below(17) as u8] }
 
 pub fn register(v: &mut Vec<Case>) {
     reg_neutral(v);
